@@ -309,10 +309,10 @@ def plan(tier):
         for off in offs2:
             units.append(('thr', count, seconds, off, 2, 0, None))
             units.append(('thr', count, seconds, off, 2, 2,
-                          2 if tier == 'quick' else None))
+                          2 if tier == 'quick' else 3))
         if tier == 'thorough':
-            units.append(('thr', count, seconds, (0, 0, 0.5), 2, 1, 3))
-            units.append(('thr', count, seconds, (0, 0.5, 1), 3, 0, 2))
+            units.append(('thr', count, seconds, (0, 0, 0.5), 2, 1, 2))
+            units.append(('thr', count, seconds, (0, 0.5, 1), 2, 0, 2))
     return units
 
 
